@@ -130,6 +130,19 @@ impl Lexer {
         }
     }
 
+    /// Skip the rest of the current line.
+    ///
+    /// This function will skip all characters up to, but not including, the
+    /// next newline. It is used to resynchronize after a malformed string.
+    fn skip_line(&mut self) {
+        while let Some(current) = self.current() {
+            if current == '\n' {
+                break;
+            }
+            self.consume_char();
+        }
+    }
+
     /// Get a range from the current character.
     ///
     /// This function will return a range with the start and end position
@@ -381,6 +394,9 @@ impl Iterator for Lexer {
                 let string_str = match self.acc_string() {
                     Ok(s) => s,
                     Err(e) => {
+                        if e.kind == StringLexErrorType::InvalidEscapeSequence {
+                            self.skip_line();
+                        }
                         return Some(Err(LexError::InvalidString(
                             Box::new(Token::new(
                                 TokenType::String(String::new()),
@@ -414,12 +430,14 @@ impl Iterator for Lexer {
                         '\\' => match self.escape_code() {
                             Some(ec) => ec,
                             None => {
+                                let end = self.get_pos();
+                                self.skip_line();
                                 return Some(self.invalid_string(
                                     c.to_string(),
                                     StringLexErrorType::InvalidEscapeSequence,
                                     start,
-                                    self.get_pos(),
-                                ))
+                                    end,
+                                ));
                             }
                         },
                         // Can't have a literal newline in a character
@@ -478,7 +496,13 @@ impl Iterator for Lexer {
                 // If the first character is not a symbol char -> error
                 if let Some(current) = self.current() {
                     if !Self::is_symbol_item(current) {
-                        return None;
+                        self.consume_char();
+                        return Some(Err(LexError::UnexpectedToken(Box::new(Token::new(
+                            TokenType::Symbol(current.to_string()),
+                            current.to_string(),
+                            Range::new(start, start),
+                            self.source_id,
+                        )))));
                     }
                 }
 
